@@ -427,22 +427,23 @@ def render_sub(structs):
     return "package " + pkgname + "\n\n" + "\n\n".join(render_struct(d) for d in subs) + "\n"
 
 
-def case_files(pkg, structs, case_id, fname="t.go"):
-    files = {fname: render_file(pkg, structs, case_id=case_id)}
+def case_files(pkg, structs, case_id, fname="t.go", deps_first=False):
+    files = {fname: render_file(pkg, structs, case_id=case_id, deps_first=deps_first)}
     sub = render_sub(structs)
     if sub:
         files["sub/sub.go"] = sub
     return files
 
 
-def render_file(pkg, structs, extra_imports=(), case_id="x"):
-    """structs: list of struct specs to declare (top-level ones and, automatically, their embeds)"""
+def render_file(pkg, structs, extra_imports=(), case_id="x", deps_first=False):
+    """structs: list of struct specs to declare (top-level ones and, automatically, their embeds; deps_first: every embedded
+    struct is declared BEFORE the struct embedding it -- the order the all-in-one modes of `new -getset` rely on)"""
     decls = []
     seen = set()
     has_sub = False
     same = False
     for s in structs:
-        for d in [s] + embed_decls(s):
+        for d in (embed_decls(s)[::-1] + [s] if deps_first else [s] + embed_decls(s)):
             if d.get("pkg") == "sub":
                 has_sub = True
                 same = same or bool(d.get("samename"))
